@@ -1,9 +1,11 @@
 //@unit props=C18,C13 tier=quick rlimit=30
 use vstd::prelude::*;
 use vstd::slice::SliceIndexSpec;
+use std::ops::{Range, RangeFull};
 verus! {
 global size_of usize == 8;
 //@include prelude/std_contracts.rs
 //@include units/inc/distance_matrix.inc.rs
+//@include units/inc/distance_matrix_index.inc.rs
 } // verus!
 fn main() {}
